@@ -573,7 +573,45 @@ func genYFuzz(r *Rng, tier string, n int, emit0 func(Case)) {
 	}
 }
 
+// ---- C07: texts that nest (or concatenate) a million times: refused, not a stack that runs into its limit -------
+
+func genYDeep(r *Rng, tier string, n int, emit func(Case)) {
+	for _, c := range []Case{
+		{"shape": "blocks", "n": 1000000}, {"shape": "blocks", "n": 10001}, {"shape": "blocks", "n": 10000}, {"shape": "blocks", "n": 300},
+		{"shape": "closed", "n": 10001}, {"shape": "closed", "n": 10000}, {"shape": "closed", "n": 2000},
+		{"shape": "pieces", "n": 2000000}, {"shape": "pieces", "n": 10001}, {"shape": "pieces", "n": 10000}, {"shape": "pieces", "n": 50},
+		{"shape": "wide", "n": 300000},
+	} {
+		c["k"] = "ydeep"
+		emit(c)
+	}
+}
+
+func runYDeep(c Case) string {
+	n := cint(c, "n")
+	var text string
+	switch cstr(c, "shape") {
+	case "blocks": // never closed
+		text = strings.Repeat("x:a {", n)
+	case "closed":
+		text = strings.Repeat("x:a { ", n-1) + "x:a;" + strings.Repeat(" }", n-1)
+	case "pieces": // n '+' signs
+		text = "x:a " + strings.Repeat("'a' + ", n) + "'a';"
+	default: // siblings: no depth at all
+		text = "x:a { " + strings.Repeat("x:b;", n) + " }"
+	}
+	_, err := parse.Parse("deep.yang", text, nil)
+	switch {
+	case err == nil:
+		return "deep:ok"
+	case strings.Contains(err.Error(), "nested more than") || strings.Contains(err.Error(), "pieces in"):
+		return "deep:refused"
+	}
+	return "deep:err"
+}
+
 func init() {
+	register(&Stream{Name: "ydeep", Prop: "C07", Gen: genYDeep, Run: runYDeep})
 	register(&Stream{Name: "yfuzz", Prop: "C07", Gen: genYFuzz, Run: runYParse})
 	register(&Stream{Name: "yarg", Prop: "C08", Gen: genYArg, Run: runYParse})
 	register(&Stream{Name: "ytree", Prop: "C10", Gen: genYTree, Run: runYParse})
